@@ -31,6 +31,7 @@ import re
 
 from ..absval import ratfun
 from ..cfg import CFG
+from ..normalize import inline_helpers
 from ..core import (AnalysisError, call_name, const_str, find_calls, kwarg,
                     last_attr, names_in, short, txt, walk)
 
@@ -213,9 +214,13 @@ class Fresh:
                     ok = False
             return ok
         if isinstance(e, ast.Subscript):
-            self.why.append(f"`{short(e, 30)}` is a view / element of an "
-                            "existing object")
-            return False
+            # a view / element: mutating it mutates the base object
+            n0 = len(self.why)
+            ok = self.expr(rel, func, e.value, env, None, depth + 1, site)
+            if not ok and len(self.why) == n0:
+                self.why.append(f"`{short(e, 30)}` is a view / element of "
+                                "an existing object")
+            return ok
         self.why.append(f"`{short(e, 30)}` is not an allocation")
         return False
 
@@ -346,6 +351,163 @@ def dict_in(stmts, name):
     return None, None
 
 
+def single_def(func, name):
+    """the only binding `name = value` of a local (else None)"""
+    found = []
+    for n in walk(func):
+        if isinstance(n, ast.Assign):
+            for t in n.targets:
+                if isinstance(t, ast.Name) and t.id == name:
+                    found.append(n if len(n.targets) == 1 else None)
+                elif name in names_in(t) and not isinstance(
+                        t, (ast.Subscript, ast.Attribute)):
+                    found.append(None)
+        elif isinstance(n, (ast.AugAssign, ast.AnnAssign, ast.For)) \
+                and isinstance(n.target, ast.Name) and n.target.id == name:
+            found.append(None)
+    if name in [a.arg for a in func.args.args]:
+        found.append(None)
+    return found[0] if len(found) == 1 else None
+
+
+class _AliasExpand(ast.NodeTransformer):
+    """replace locals that are bound once to a name or a view of another
+    object (``col = lut[:, 0]``) by that expression"""
+
+    def __init__(self, func, depth=4):
+        self.func, self.depth = func, depth
+
+    def visit_Name(self, node):
+        if isinstance(node.ctx, ast.Load) and self.depth > 0:
+            d = single_def(self.func, node.id)
+            if d is not None and isinstance(
+                    d.value, (ast.Name, ast.Subscript)) \
+                    and node.id not in names_in(d.value):
+                import copy as _copy
+                return _AliasExpand(self.func, self.depth - 1).visit(
+                    _copy.deepcopy(d.value))
+        return node
+
+
+def alias_txt(func, e):
+    import copy as _copy
+    return txt(ast.fix_missing_locations(
+        _AliasExpand(func).visit(_copy.deepcopy(e))))
+
+
+def root_def(func, e):
+    """follow `a = b` chains: (root name, its only definition or None)"""
+    seen = 0
+    while isinstance(e, ast.Name) and seen < 6:
+        d = single_def(func, e.id)
+        if d is not None and isinstance(d.value, ast.Name):
+            e = d.value
+            seen += 1
+            continue
+        return e.id, d
+    return None, None
+
+
+def dispatch_branches(func, what):
+    """[(test, body)] of a feature dispatch written as an if/elif chain or
+    as consecutive guard clauses (each ending in return/raise); the trailing
+    else / fall-through statements are returned separately"""
+    out = []
+    body = [s for s in func.body if not (
+        isinstance(s, ast.Expr) and isinstance(s.value, ast.Constant))]
+    i = 0
+    rest = []
+    while i < len(body):
+        st = body[i]
+        if not isinstance(st, ast.If):
+            rest = body[i:]
+            break
+        node = st
+        chain_elif = False
+        while True:
+            out.append((node.test, node.body))
+            if len(node.orelse) == 1 and isinstance(node.orelse[0], ast.If):
+                node = node.orelse[0]
+                chain_elif = True
+                continue
+            break
+        if node.orelse:
+            rest = node.orelse + body[i + 1:]
+            break
+        # consecutive guard clauses: every branch so far must leave
+        if i + 1 < len(body) and isinstance(body[i + 1], ast.If):
+            for t, b in out:
+                if not isinstance(b[-1], (ast.Return, ast.Raise)):
+                    raise AnalysisError(
+                        f"{what}: consecutive `if` statements whose "
+                        "branches fall through")
+        i += 1
+        del chain_elif
+    if not out:
+        raise AnalysisError(f"{what}: dispatch not found")
+    return out, rest
+
+
+def seval(e, env, what):
+    """evaluate a dispatch test over string-valued names"""
+    if isinstance(e, ast.Constant):
+        return e.value
+    if isinstance(e, ast.Name):
+        if e.id in env:
+            return env[e.id]
+        raise AnalysisError(f"{what}: test mentions `{e.id}`")
+    if isinstance(e, (ast.List, ast.Tuple, ast.Set)):
+        return [seval(x, env, what) for x in e.elts]
+    if isinstance(e, ast.BoolOp):
+        vals = [seval(v, env, what) for v in e.values]
+        return all(vals) if isinstance(e.op, ast.And) else any(vals)
+    if isinstance(e, ast.UnaryOp) and isinstance(e.op, ast.Not):
+        return not seval(e.operand, env, what)
+    if isinstance(e, ast.Compare) and len(e.ops) == 1:
+        a = seval(e.left, env, what)
+        b = seval(e.comparators[0], env, what)
+        op = e.ops[0]
+        if isinstance(op, ast.Eq):
+            return a == b
+        if isinstance(op, ast.NotEq):
+            return a != b
+        if isinstance(op, ast.In):
+            return a in b
+        if isinstance(op, ast.NotIn):
+            return a not in b
+    raise AnalysisError(f"{what}: test `{short(e, 40)}` not understood")
+
+
+def first_branch(branches, env, what):
+    for t, b in branches:
+        if seval(t, env, what):
+            return t, b
+    return None
+
+
+def branch_value(body, result_name, what):
+    """value a dispatch branch yields: `return v` or `<result> = v`
+    (None for a raising branch); also the statement"""
+    stmts = [s for s in body if not isinstance(s, ast.Pass)]
+    if len(stmts) == 1 and isinstance(stmts[0], ast.Raise):
+        return None, stmts[0]
+    if len(stmts) == 1 and isinstance(stmts[0], ast.Return) \
+            and stmts[0].value is not None:
+        return stmts[0].value, stmts[0]
+    if len(stmts) == 1 and isinstance(stmts[0], ast.Assign) and len(
+            stmts[0].targets) == 1 and isinstance(
+            stmts[0].targets[0], ast.Name) and (
+            result_name is None or stmts[0].targets[0].id == result_name):
+        return stmts[0].value, stmts[0]
+    if len(stmts) == 2 and isinstance(stmts[0], ast.Assign) and isinstance(
+            stmts[1], ast.Return) and isinstance(
+            stmts[1].value, ast.Name) and txt(
+            stmts[0].targets[0]) == stmts[1].value.id:
+        return stmts[0].value, stmts[0]
+    raise AnalysisError(f"{what}: branch `{short(body[0], 40)}` not "
+                        "understood")
+
+
 def base_name(e):
     while isinstance(e, (ast.Subscript, ast.Attribute)):
         e = e.value
@@ -375,7 +537,9 @@ class Model:
 
     def __init__(self, repo):
         self.repo = repo
-        f = self.f = repo.func(EM, "get_emodulus")
+        # extracted private helpers (e.g. a per-axis normalisation helper)
+        # are read as part of the function
+        f = self.f = inline_helpers(repo, EM, repo.func(EM, "get_emodulus"))
         self.params = [a.arg for a in f.args.args]
         self.defaults = dict(zip(reversed(self.params),
                                  reversed(f.args.defaults)))
@@ -650,11 +814,16 @@ def law_of(ctx, repo, fname, first_param_feature, want):
                             f"of `{rv}`")
     mul = muls[0]
 
-    def res(node):
+    def res(node, depth=0):
         if isinstance(node, ast.Name):
             if node.id in params:
                 return node.id
-            raise AnalysisError(f"{fname}: factor mentions `{node.id}`")
+            d = single_def(f, node.id)
+            if d is None or depth > 6:
+                raise AnalysisError(f"{fname}: factor mentions `{node.id}` "
+                                    "which is not a parameter or a local "
+                                    "bound once")
+            return ratfun(d.value, lambda n_: res(n_, depth + 1))
         return None
     r = ratfun(mul.value, res)
     if isinstance(mul.op, ast.Div):
@@ -734,24 +903,19 @@ def r52(ctx, repo):
     if sp[:3] != ["feat", "data", "inplace"] or sf.args.kwarg is None:
         raise AnalysisError("scale_feature: signature changed")
     kwname = sf.args.kwarg.arg
-    node = next((s for s in sf.body if isinstance(s, ast.If)), None)
     seen = set()
-    while node is not None:
-        t = node.test
-        feats = []
-        if isinstance(t, ast.Compare) and txt(t.left) == "feat":
-            if isinstance(t.ops[0], ast.Eq) and const_str(t.comparators[0]):
-                feats = [const_str(t.comparators[0])]
-            elif isinstance(t.ops[0], ast.In) and isinstance(
-                    t.comparators[0], (ast.List, ast.Tuple, ast.Set)):
-                feats = [const_str(x) for x in t.comparators[0].elts]
-        if not feats:
-            raise AnalysisError("scale_feature: dispatch test "
-                                f"`{short(t, 40)}`")
-        rets = [s for s in node.body if isinstance(s, ast.Return)]
-        if len(rets) != 1 or not isinstance(rets[0].value, ast.Call):
+    sbranches, srest = dispatch_branches(sf, "scale_feature")
+    for ft in ("area_um", "circ", "deform", "emodulus", "volume"):
+        hit = first_branch(sbranches, {"feat": ft}, "scale_feature")
+        if hit is None:
+            continue
+        feats = [ft]
+        sbody = hit[1]
+        c, _st = branch_value(sbody, None, "scale_feature")
+        if c is None:
+            continue        # this feature is rejected
+        if not isinstance(c, ast.Call):
             raise AnalysisError("scale_feature: branch shape")
-        c = rets[0].value
         for ft in feats:
             seen.add(ft)
             if dims.get(ft, None) == 0 or ft in ("circ", "deform"):
@@ -782,9 +946,6 @@ def r52(ctx, repo):
                     f"**{kwname} – an in-place request is silently ignored "
                     "or the scale parameters are lost"), node=c,
                    key=f"{SCALE}::scale_feature::dispatch {ft}")
-        nxt = node.orelse
-        node = nxt[0] if len(nxt) == 1 and isinstance(nxt[0], ast.If) \
-            else None
     for ft in ("area_um", "volume", "emodulus", "deform"):
         if ft not in seen:
             raise AnalysisError(f"scale_feature: no branch for '{ft}'")
@@ -969,28 +1130,36 @@ def r54(ctx, repo, m):
     # dispatch of get_pixelation_delta
     g = repo.func(PX, "get_pixelation_delta")
     table = {}
-    node = next((s for s in g.body if isinstance(s, ast.If)), None)
-    while node is not None:
-        t = node.test
-        conds = {}
-        for cmp_ in (t.values if isinstance(t, ast.BoolOp) else [t]):
-            if isinstance(cmp_, ast.Compare) and isinstance(
-                    cmp_.ops[0], ast.Eq) and const_str(cmp_.comparators[0]):
-                conds[txt(cmp_.left)] = const_str(cmp_.comparators[0])
-        if set(conds) == {"feat_corr", "feat_absc"} and len(node.body) == 1 \
-                and isinstance(node.body[0], ast.Assign):
-            v = node.body[0].value
+    gbranches, grest = dispatch_branches(g, "get_pixelation_delta")
+    # name of the result variable when branches assign instead of return
+    gret = [r for r in grest if isinstance(r, ast.Return)]
+    gname = gret[0].value.id if gret and isinstance(
+        gret[0].value, ast.Name) else None
+    for corr in ("deform", "circ"):
+        for absc in ("area_um", "volume"):
+            hit = first_branch(gbranches, {"feat_corr": corr,
+                                           "feat_absc": absc},
+                               "get_pixelation_delta")
+            if hit is None:
+                continue
+            v, vst = branch_value(hit[1], gname, "get_pixelation_delta")
+            if v is None:
+                continue
+            if isinstance(vst, ast.Assign) and gname is None:
+                raise AnalysisError("get_pixelation_delta: assigned result "
+                                    "is not returned")
             sign = 1
             if isinstance(v, ast.UnaryOp) and isinstance(v.op, ast.USub):
                 sign, v = -1, v.operand
+            elif isinstance(v, ast.BinOp) and isinstance(
+                    v.op, ast.Mult) and txt(v.left) in ("-1", "(-1)"):
+                sign, v = -1, v.right
             if not isinstance(v, ast.Call):
-                raise AnalysisError("get_pixelation_delta: branch value")
-            table[(conds["feat_corr"], conds["feat_absc"])] = (
+                raise AnalysisError("get_pixelation_delta: branch value "
+                                    f"`{short(v, 40)}`")
+            table[(corr, absc)] = (
                 sign, call_name(v), txt(v.args[0]) if v.args else None,
-                txt(kwarg(v, "px_um", 1)), node.body[0])
-        nxt = node.orelse
-        node = nxt[0] if len(nxt) == 1 and isinstance(nxt[0], ast.If) \
-            else None
+                txt(kwarg(v, "px_um", 1)), vst)
     dims = unit_dimensions(repo)
     for absc in ("area_um", "volume"):
         d = table.get(("deform", absc))
